@@ -108,3 +108,37 @@ Definition migrate_prog (crc H : bytes -> Z) (p : params) (base : Z) (mv iv : ve
     | ScanCorrupt => Err ELogCorrupted
     | ScanFuel => Err EOutOfFuel
     end.
+
+(* ---------- C06: which files are entirely on stable storage.  A file is durable when every byte written to it has been
+   fsynced (a new file is created with its header, durably - the stipulation of the property); a rename carries the
+   durability of its source to its target. *)
+Record sflags := mkS { s_log : bool; s_rtmp : bool; s_idx : bool; s_itmp : bool }.
+
+Definition sget (s : sflags) (f : rfile) : bool :=
+  match f with RfLog => s_log s | RfRtmp => s_rtmp s | RfIdx => s_idx s | RfItmp => s_itmp s end.
+
+Definition sset (s : sflags) (f : rfile) (b : bool) : sflags :=
+  match f with
+  | RfLog => mkS b (s_rtmp s) (s_idx s) (s_itmp s)
+  | RfRtmp => mkS (s_log s) b (s_idx s) (s_itmp s)
+  | RfIdx => mkS (s_log s) (s_rtmp s) b (s_itmp s)
+  | RfItmp => mkS (s_log s) (s_rtmp s) (s_idx s) b
+  end.
+
+Definition sexec (s : sflags) (st : rstep) : sflags :=
+  match st with
+  | RRemove f => sset s f true            (* no file: nothing to lose *)
+  | RCreate f _ => sset s f true
+  | RWrite f _ => sset s f false
+  | RFsync f => sset s f true
+  | RRename a b => sset (sset s b (sget s a)) a true
+  end.
+
+Definition srun (s : sflags) (prog : list rstep) : sflags := fold_left sexec prog s.
+
+(* after every step of the program the segment's log file and index file are durable *)
+Fixpoint live_durable (s : sflags) (prog : list rstep) : Prop :=
+  match prog with
+  | [] => True
+  | st :: r => s_log (sexec s st) = true /\ s_idx (sexec s st) = true /\ live_durable (sexec s st) r
+  end.
